@@ -77,7 +77,8 @@ class Point(ElementBase):
         if not isinstance(label, list):
             label = [label]
 
-        self.projected_to += label
+        # (a surface named twice, e.g. through two sides of a block, is still one surface)
+        self.projected_to += [name for name in label if name not in self.projected_to]
 
     @property
     def description(self) -> str:
